@@ -1,10 +1,83 @@
 import VOPyVerif.Drv.Proto
-/-! Driver front end for property C08 (line protocol → executable model). -/
+import VOPyVerif.Model.Naive
+/-! Driver front end for property C08 (NaiveElimination).
+
+Floats cross the boundary as the decimal value of their IEEE-754 bit pattern (`<bits>`), in both
+directions, so nothing is rounded by printing.
+
+* `L <noise_var bits> <eps bits> <delta bits> <theta_deg bits> <m> <K>`
+    → `<Lcode> <Lprop> <rawcode bits> <rawprop bits> <beta bits>`:
+    `naiveLcode` (mirrors the constructor: `noise_var` where σ is meant), `naiveLprop`
+    (σ = sqrt(noise_var)), the two arguments of `ceil`, and `coneBeta`, all at `Float`.
+* `Lgen <c bits> <s bits> <beta bits> <eps bits> <delta bits> <m> <K>` → `<raw bits>`: `naiveLreal`.
+* `means <samples>`                 → matrix `rowMeans samples`
+    (`samples` = `|`-separated list of `t × m` matrices, one per design)
+* `P <W> <samples>`                 → indices `naiveP W samples`
+* `Pspec <W> <samples> <idx>`       → `ok`/`fail`: C13's relation `specOk` for `idx` against the
+    model's means
+* `margin <W> <samples>`            → `none` or the rational distance of the dominance decisions from a tie
+* `run <L> <K> <W> <rounds>`        → `;`-separated `done:round:sample_count:P` records: the state
+    after `__init__` (done = `-`) and after each `run_one_step` fed with the successive `K × m`
+    matrices of `<rounds>` (`|`-separated).
+-/
 namespace VOPy.Drv.C08
-open VOPy VOPy.Proto
+open VOPy VOPy.Proto VOPy.Naive
+
+def parseBits (s : String) : Option Float :=
+  s.toNat?.bind fun n => if n < 2 ^ 64 then some (Float.ofBits n.toUInt64) else none
+
+def fmtBits (x : Float) : String := toString x.toBits.toNat
+
+def fmtRec (W : Mat) (done : String) (s : State) : String :=
+  done ++ ":" ++ toString s.round ++ ":" ++ toString s.sampleCount ++ ":" ++ fmtNats (s.P W)
+
+def runTrace (W : Mat) (s : State) : List (List Vec) → List String
+  | [] => []
+  | new :: rest =>
+    let (s', d) := step s new
+    fmtRec W (fmtBool d) s' :: runTrace W s' rest
 
 def handle (args : List String) : String :=
   match args with
+  | ["L", nv, e, d, th, m, k] =>
+    match parseBits nv, parseBits e, parseBits d, parseBits th, m.toNat?, k.toNat? with
+    | some nv, some e, some d, some th, some m, some k =>
+      let β : Float := coneBeta th
+      let rawc : Float := naiveLreal naiveC nv β e d m k
+      let rawp : Float := naiveLreal naiveC (Float.sqrt nv) β e d m k
+      " ".intercalate [toString (naiveLcode nv e d th m k), toString (naiveLprop nv e d th m k),
+        fmtBits rawc, fmtBits rawp, fmtBits β]
+    | _, _, _, _, _, _ => bad
+  | ["Lgen", c, s, b, e, d, m, k] =>
+    match parseBits c, parseBits s, parseBits b, parseBits e, parseBits d, m.toNat?, k.toNat? with
+    | some c, some s, some b, some e, some d, some m, some k =>
+      fmtBits (naiveLreal c s b e d m k)
+    | _, _, _, _, _, _, _ => bad
+  | ["means", x] =>
+    match parseMats x with
+    | some S => fmtMat (rowMeans S)
+    | none => bad
+  | ["P", w, x] =>
+    match parseMat w, parseMats x with
+    | some W, some S => fmtNats (naiveP W S)
+    | _, _ => bad
+  | ["Pspec", w, x, i] =>
+    match parseMat w, parseMats x, parseNats i with
+    | some W, some S, some I => if Pareto.specOk (dominates W) (rowMeans S) I then "ok" else "fail"
+    | _, _, _ => bad
+  | ["margin", w, x] =>
+    match parseMat w, parseMats x with
+    | some W, some S =>
+      match margin W (rowMeans S) with
+      | some r => fmtRat r
+      | none => "none"
+    | _, _ => bad
+  | ["run", l, k, w, x] =>
+    match l.toNat?, k.toNat?, parseMat w, parseMats x with
+    | some L, some K, some W, some R =>
+      let s0 := init K L
+      ";".intercalate (fmtRec W "-" s0 :: runTrace W s0 R)
+    | _, _, _, _ => bad
   | _ => bad
 
 end VOPy.Drv.C08
